@@ -309,7 +309,7 @@ def scenario_buffer(sim: Sim) -> None:
     ch = sim.ch
     cap = ch.int_between("capacity", 1, sim.scale(12, 24))
     # (incl. periods with an odd number of microseconds: there is no exact half-way point then)
-    period_us = ch.choice("period", [1_000_000, 500_000, 1_000, 7_000_000, 7, 1_000_001])
+    period_us = ch.choice("period", [1_000_000, 500_000, 1_000, 7_000_000, 7, 1_000_001, 100_000, 200_000])
     align = datetime(2024, 1, 1, tzinfo=sim.epoch.tzinfo) + timedelta(microseconds=ch.choice(
         "align_off", [0, 0, 250_000, 333_333, 999_999, 1]) % period_us)
     dst_far = False
